@@ -96,7 +96,10 @@ def import_from_path(module_name: str, file_path: Path) -> Callable[[], Model]:
     sys.modules[module_name] = module
     loader = spec.loader
     assert loader is not None  # noqa: S101
-    loader.exec_module(module)
+    # The file is generated anew for every import. Byte code cached for an earlier
+    # version is only told apart by mtime (in seconds) and size, so it must not be used
+    source = file_path.read_text()
+    exec(compile(source, str(file_path), "exec"), module.__dict__)  # noqa: S102
     return module.create_model
 
 
